@@ -8,18 +8,19 @@ from . import vlib, bigstep
 from .vlib import Inconclusive
 
 ALL_DEV = ["R14", "R15"]
-STIM = ["Begin", "Answer", "badtag", "badtype", "badbody", "cut", "garbage", "Close", "FailWrites", "HoldWrites", "HoldReturns",
+STIM = ["Begin", "Answer", "Refuse", "badtag", "badtype", "badbody", "cut", "garbage", "Close", "FailWrites", "HoldWrites", "HoldReturns",
         "ReleaseReturns"]
 
 INVARIANTS = ["DistinctTags", "OwnReply", "NoHang"]
 
 
-def cfg(callers, twice, maxbad, holds, fixed, invariants=(), props=(), dump=False):
+def cfg(callers, twice, maxbad, holds, fixed, invariants=(), props=(), dump=False, refusals=False):
     l = ["SPECIFICATION Spec", "CONSTANTS",
          "  Callers = {%s}" % ", ".join(str(i) for i in range(1, callers + 1)),
          "  Objs = {1, 2, 3}", "  MaxBad = %d" % maxbad,
          "  Twice = {%s}" % ", ".join(str(i) for i in twice),
          "  Holds = {%s}" % ", ".join('"%s"' % h for h in (holds if isinstance(holds, (list, tuple)) else (["pre"] if holds else []))),
+         "  Refusals = %s" % ("TRUE" if refusals else "FALSE"),
          "  Fixed = {%s}" % ", ".join('"%s"' % f for f in fixed), "VIEW View", "CHECK_DEADLOCK FALSE"]
     if dump:
         l.append("ACTION_CONSTRAINT EdgeDump")
@@ -31,7 +32,7 @@ def cfg(callers, twice, maxbad, holds, fixed, invariants=(), props=(), dump=Fals
 
 
 def canon(o):
-    return (tuple(o.get("callers", [])), tuple(o.get("wire", [])))
+    return (tuple(o.get("callers") or []), tuple(o.get("wire") or []))
 
 
 # name -> (callers, twice, maxbad, holds)
@@ -40,6 +41,7 @@ MC = {
     "3callers-third-twice": (3, [3], 0, False),
     "2callers-hold-1bad": (2, [2], 1, True),
     "3callers-holdret": (3, [], 0, ["post"]),
+    "3callers-refuse": (3, [], 0, False, True),
 }
 GEN = {
     "2callers-1bad": (2, [], 1, False),
@@ -48,6 +50,9 @@ GEN = {
     "2callers-hold": (2, [2], 0, True),
     # a write that delivers its frame but returns late: the reply can be read before the sender resumes
     "2callers-holdret": (2, [2], 0, ["post"]),
+    # every request answered or refused (Rlerror with an errno of its own), in every order
+    "3callers-refuse": (3, [], 0, False, True),
+    "2callers-refuse": (2, [2], 0, False, True),
 }
 
 # witness of the fixed finding R14 (TLC counterexample of NoHang with the old behaviour), as a harness script
@@ -80,9 +85,11 @@ def wrong_reply(script, obs):
     for st, ob in zip(script, obs):
         if st[0] == "Begin":
             ncall[st[1]] = ncall.get(st[1], 0) + 1
-        for k, v in enumerate(ob.get("callers", []), start=1):
-            if v >= 100 and v - 100 != 10 * ncall.get(k, 0) + k:
-                out.append("caller %d (request %d) returned the reply to request %d" % (k, 10 * ncall.get(k, 0) + k, v - 100))
+        for k, v in enumerate(ob.get("callers") or [], start=1):
+            # (1100 + id: refused with the errno the server made for request id)
+            if v >= 100 and (v - 100) % 1000 != 10 * ncall.get(k, 0) + k:
+                out.append("caller %d (request %d) returned the %s request %d" %
+                           (k, 10 * ncall.get(k, 0) + k, "errno of the refusal of" if v >= 1100 else "reply to", (v - 100) % 1000))
     return out
 
 
@@ -104,21 +111,25 @@ def run(tier, seed):
         mcs = ["3callers-1bad"] if tier == "quick" else list(MC)
         for name in mcs:
             c = MC[name]
-            r = vlib.run_tlc(s, "MC_Client", cfg(*c, fixed=ALL_DEV, invariants=INVARIANTS), name="mc-" + name, timeout=3000)
+            r = vlib.run_tlc(s, "MC_Client", cfg(*c[:4], fixed=ALL_DEV, invariants=INVARIANTS, refusals=len(c) > 4 and c[4]),
+                             name="mc-" + name, timeout=3000)
             if "violated" in r:
                 raise Inconclusive("Client.tla itself violates %s in %s" % (r["violated"], name))
             states += r.get("distinct", 0)
             trans += r.get("generated", 0)
             runs.append({"config": name, "distinct": r.get("distinct"), "generated": r.get("generated"), "wall_s": round(r["wall_s"], 1),
                          "invariants": INVARIANTS})
-        gens = ["2callers-1bad", "2callers-hold", "2callers-holdret"] if tier == "quick" else list(GEN)
+        gens = ["2callers-1bad", "2callers-hold", "2callers-holdret", "2callers-refuse"] if tier == "quick" else list(GEN)
         for name in gens:
             c = GEN[name]
             out = os.path.join(s, "edges-%s.ndjson" % name)
-            vlib.run_tlc(s, "MC_Client", cfg(*c, fixed=fixed, dump=True), workers=1, env={"GEN_OUT": out}, name="gen-" + name, timeout=3000)
+            vlib.run_tlc(s, "MC_Client", cfg(*c[:4], fixed=fixed, dump=True, refusals=len(c) > 4 and c[4]), workers=1,
+                         env={"GEN_OUT": out}, name="gen-" + name, timeout=3000)
             g = bigstep.Graph(out, STIM, canon=canon)
             scripts = g.scripts(maxlen=9, limit=limit, seed=seed)
-            inp = {"name": name, "callers": c[0], "scripts": [[list(x) for x in sc] for sc in scripts]}
+            # (configurations with refusals deliver runs of consecutive answers / refusals in one piece: the
+            # replies are then read back to back, before the callers they wake have run)
+            inp = {"name": name, "callers": c[0], "scripts": [[list(x) for x in sc] for sc in scripts], "burst": len(c) > 4 and bool(c[4])}
             results = run_sched(s, inp, name)
             runs.append({"config": "gen-" + name, "edges": g.nedges, "scripts": len(scripts)})
             for r_ in results:
